@@ -1,2 +1,94 @@
-(** * C07 — service (stub, theorems follow) *)
-From Irismod Require Import Service.Model Service.Check.
+(** * C07 — Service: deposits and fees are conserved across escrow, providers and consumers.
+
+    Only statements, each closed by [exact] of a lemma of [Service/Proofs*.v], with
+    [Print Assumptions] beneath.  The model ([Service/Model.v]) follows the code AFTER the
+    three [fix:] commits recorded in known-findings.txt (discounted charge, complete rewrite of
+    the owner tally, all-or-nothing deduction); on the unchanged code the first theorem below is
+    false (corpus/C07/discount-overcharge.jsonl). *)
+From Irismod Require Import Service.Model Service.Proofs.
+
+(** When the end blocker issues a batch for context [id] (running, enough providers pass the
+    filter, the consumer can pay), then in EVERY denom the consumer's balance falls by exactly
+    the sum of the fees recorded on the requests created for the batch, the request escrow
+    rises by the same amount, and no other account moves. *)
+Theorem consumer_charged_sum_of_request_fees :
+  forall s id x ps l d,
+    get id (ctxs s) = Some x -> x_state x = 0 -> filter_provs s x (x_provs x) = Some ps ->
+    ((0 <? Z.of_nat (length ps)) && (x_thr x <=? Z.of_nat (length ps))) = true ->
+    debit_all (led s) (x_cons x) (total_fees s x ps) = Some l ->
+    x_cons x <> REQ ->
+    let s' := new_batch_handler s id in
+    let created := mk_requests s x id (x_batch x + 1) 0 ps in
+    bal (led s') (x_cons x) d = bal (led s) (x_cons x) d - fees_in d created
+    /\ bal (led s') REQ d = bal (led s) REQ d + fees_in d created
+    /\ (forall a, a <> x_cons x -> a <> REQ -> bal (led s') a d = bal (led s) a d).
+Proof. exact consumer_charged_sum_of_request_fees_lemma. Qed.
+Print Assumptions consumer_charged_sum_of_request_fees.
+
+(** the amount charged, whatever the providers, pricing and discounts: sum of the recorded fees *)
+Theorem total_charge_is_sum_of_recorded_fees :
+  forall s x id batch d ps i,
+    amt d (total_fees s x ps) = fees_in d (mk_requests s x id batch i ps).
+Proof. intros. apply total_fees_eq_request_fees. Qed.
+Print Assumptions total_charge_is_sum_of_recorded_fees.
+
+(** A successful response: the request was active and addressed to the responder; its fee
+    leaves the escrow as tax = floor(fee * tax rate) to the tax account, the remainder is
+    credited to the provider's earned fees; nothing else moves; the request is now inactive and
+    logged as answered. *)
+Theorem fee_destination_answered :
+  forall c s rid prov kind s',
+    respond c s rid prov kind = Okk s' ->
+    exists q, get rid (reqs s) = Some q /\ q_prov q = prov /\ q_active q = true
+      /\ (exists q', get rid (reqs s') = Some q' /\ q_active q' = false /\ q_resp q' <> 0
+                     /\ q_prov q' = prov /\ q_fee q' = q_fee q /\ q_fd q' = q_fd q)
+      /\ (forall rid', rid' <> rid -> get rid' (reqs s') = get rid' (reqs s))
+      /\ let tax := tax_of c (q_fee q) in
+         0 <= tax <= q_fee q
+         /\ send (led s) REQ TAX (q_fd q) tax = Some (led s')
+         /\ getz (prov, q_fd q) (earned s') = getz (prov, q_fd q) (earned s) + (q_fee q - tax)
+         /\ (forall k, k <> (prov, q_fd q) -> getz k (earned s') = getz k (earned s))
+         /\ g_out s' = g_out s ++ [(rid, 1)].
+Proof. exact respond_ok_lemma. Qed.
+Print Assumptions fee_destination_answered.
+
+Theorem tax_is_floor :
+  forall c fee, 0 <= fee -> 0 <= c_tax c -> tax_of c fee = (fee * c_tax c) / P18.
+Proof. exact tax_of_floor. Qed.
+Print Assumptions tax_is_floor.
+
+(** An expiring request: its whole fee goes from the request escrow back to the consumer of
+    its context (after the provider's binding was slashed); it is deactivated without a
+    response and logged as expired; earned fees are untouched. *)
+Theorem fee_destination_expired :
+  forall c x s rid q,
+    let s1 := slash c s (x_svc x) (q_prov q) in
+    let s' := expire_request c x s (rid, q) in
+    0 <= q_fee q <= bal (led s1) REQ (q_fd q) -> x_cons x <> REQ ->
+    bal (led s') (x_cons x) (q_fd q) = bal (led s1) (x_cons x) (q_fd q) + q_fee q
+    /\ bal (led s') REQ (q_fd q) = bal (led s1) REQ (q_fd q) - q_fee q
+    /\ (forall a d, (a, d) <> (REQ, q_fd q) -> (a, d) <> (x_cons x, q_fd q) -> bal (led s') a d = bal (led s1) a d)
+    /\ get rid (reqs s') = Some (rq_active q false)
+    /\ (forall rid', rid' <> rid -> get rid' (reqs s') = get rid' (reqs s))
+    /\ g_out s' = g_out s ++ [(rid, 2)]
+    /\ earned s' = earned s.
+Proof. exact expire_request_lemma. Qed.
+Print Assumptions fee_destination_expired.
+
+(** Slashing moves exactly floor(deposit * slash fraction) from the deposit escrow to the tax
+    account and lowers the binding's recorded deposit by the same amount. *)
+Theorem slash_amount :
+  forall c s svc prov b,
+    get (svc, prov) (binds s) = Some b ->
+    0 <= b_dep b -> 0 <= c_slash c <= P18 ->
+    b_dep b <= bal (led s) DEP BASE ->
+    let amount := (b_dep b * c_slash c) / P18 in
+    let s' := slash c s svc prov in
+    0 <= amount <= b_dep b
+    /\ bal (led s') DEP BASE = bal (led s) DEP BASE - amount
+    /\ bal (led s') TAX BASE = bal (led s) TAX BASE + amount
+    /\ (forall a d, (a, d) <> (DEP, BASE) -> (a, d) <> (TAX, BASE) -> bal (led s') a d = bal (led s) a d)
+    /\ (exists b', get (svc, prov) (binds s') = Some b' /\ b_dep b' = b_dep b - amount /\ b_owner b' = b_owner b)
+    /\ (forall k, k <> (svc, prov) -> get k (binds s') = get k (binds s)).
+Proof. exact slash_amount_lemma. Qed.
+Print Assumptions slash_amount.
